@@ -15,7 +15,7 @@ fn series(rng: &mut Rng, len: usize, small: bool) -> (Vec<f64>, &'static str) {
     let style = rng.below(4);
     let mut cur = rng.range(-8, 8);
     let c = rng.range(-4, 4);
-    let xs = (0..len).map(|i| if m[i] { f64::NAN } else {
+    let xs = (0..len).map(|i| if m[i] { vh::nan_at(i) } else {
         (match style { 0 => rng.range(if small { -2 } else { -40 }, if small { 2 } else { 40 }), 1 => { cur += rng.range(0, 3); cur } 2 => c, _ => { cur += rng.range(-5, 5); cur } }) as f64 / 4.0 }).collect();
     (xs, pat)
 }
